@@ -248,7 +248,7 @@ pub fn run(ctx: &Ctx, out: &mut Out) {
         }
         let mut rng = ctx.rng(0, i as u64);
         let coinductive = rng.chance(1, 3);
-        let mut pg = ProgGen { rng: &mut rng, cfg: ProgCfg { coinductive, ..ProgCfg::default() } };
+        let mut pg = ProgGen { rng: &mut rng, cfg: ProgCfg { coinductive, growing: false, ..ProgCfg::default() } };
         let prog = pg.program();
         let text = prog.render();
         out.count("programs");
